@@ -58,6 +58,25 @@ MUTANTS = {
     # show: listing the cache although own is disabled only when there are no sources (narrow branch)
     "M10-show-cache-when-no-sources": ('        if "own" in scopes:\n            cache_states = cls._show(params, object)',
                                        '        if "own" in scopes or not sources:\n            cache_states = cls._show(params, object)'),
+    # compare_chain, dropped condition: the vm state file of every backing state is compared as well
+    "M11-chain-state-file-everywhere": ('            if next_state == state and params["object_type"] in ["vms", "nets/vms"]:\n'
+                                        '                cache_path = os.path.join(cache_dir, vm_id, next_state + ".state")\n'
+                                        '                pool_path = os.path.join(pool_dir, vm_id, next_state + ".state")\n'
+                                        '                if not cls.ops.compare(',
+                                        '            if params["object_type"] in ["vms", "nets/vms"]:\n'
+                                        '                cache_path = os.path.join(cache_dir, vm_id, next_state + ".state")\n'
+                                        '                pool_path = os.path.join(pool_dir, vm_id, next_state + ".state")\n'
+                                        '                if not cls.ops.compare('),
+    # compare_chain, forgotten walk: only the requested state is compared, not what it is backed by
+    "M12-chain-top-state-only": ('            # comparison of state chain is not yet complete if the state has backing dependencies\n'
+                                 '            next_state = cls.get_dependency(next_state, params)',
+                                 '            # comparison of state chain is not yet complete if the state has backing dependencies\n'
+                                 '            next_state = ""'),
+    # compare_chain, forgotten return: a differing image only warns
+    "M13-chain-image-diff-only-warns": ('                        f"The image {image_name} has different {next_state} between cache {cache_path} and pool {pool_path}"\n'
+                                        '                    )\n                    return False',
+                                        '                        f"The image {image_name} has different {next_state} between cache {cache_path} and pool {pool_path}"\n'
+                                        '                    )'),
 }
 
 
